@@ -310,7 +310,7 @@ func (e *env) openBack(abs string) {
 // operation; n2, n3 are further absent names of the same kind, dn a name for a
 // collection.
 func (e *env) matrix(class, dir, n1, n2, n3, dn string) {
-	obs := func(what string) { e.c.Observe("boundary-length names: operations", class+": "+what, 1) }
+	obs := func(what string) { e.c.Observe(e.opsTable(), class+": "+what, 1) }
 	p1, p2, p3, pd := join(dir, n1), join(dir, n2), join(dir, n3), join(dir, dn)
 	cr := func(p string, big bool) {
 		e.localMutate("Create", p, "", e.nf(p, false), nameForm{}, nil, nil, genData(e.r, big), false)
